@@ -962,14 +962,32 @@ impl State {
     pub fn run(&mut self) -> Xresult {
         self.clear_last_error();
         while self.is_running() {
+            let log_len = self.reverse_log_len();
             self.fetch_and_run().map_err(|e| {
                 self.set_runtime_err_location(&e);
+                self.seal_failed_step(log_len);
                 self.run_failed = true;
                 e
             })?;
         }
         self.run_failed = false;
         OK
+    }
+
+    fn reverse_log_len(&self) -> usize {
+        self.reverse_log.as_ref().map_or(0, |log| log.len())
+    }
+
+    // A failed instruction keeps what it changed before failing. Close the undo group of
+    // those changes, otherwise they would be undone together with the next instruction
+    // that runs (which may belong to another program).
+    fn seal_failed_step(&mut self, log_len: usize) {
+        let ip = self.ctx.ip;
+        if let Some(log) = self.reverse_log.as_mut() {
+            if log.len() > log_len {
+                log.push(ReverseStep::SetIp(ip));
+            }
+        }
     }
 
     fn set_runtime_err_location(&mut self, e: &Xerr) {
@@ -1236,8 +1254,10 @@ impl State {
     pub fn next(&mut self) -> Xresult {
         if self.is_running() {
             self.clear_last_error();
+            let log_len = self.reverse_log_len();
             self.fetch_and_run().map_err(|e| {
                 self.set_runtime_err_location(&e);
+                self.seal_failed_step(log_len);
                 self.run_failed = true;
                 e
             })?;
